@@ -31,6 +31,8 @@ DOM = {
     "seqinf": {"values": [float("inf"), 1.0, float("-inf")]},
     "seq12": {"values": [float(i) for i in range(12, 0, -1)]},
     "lin3int": {"lo": 1, "hi": 3, "steps": 3},
+    "lin200": {"lo": 0.0, "hi": 1.0, "steps": 200},       # beyond the small scope
+    "log50_noend": {"lo": 1.0, "hi": 1.0e6, "steps": 50, "scale": "log", "endpoint": False},
 }
 KIND = {
     "src": dict(proc="VSrc2", swept="value", other="offset", other_default=0.5, collection=True, data=None),
@@ -183,7 +185,7 @@ def cases(tier: str) -> List[dict]:
     out: List[dict] = []
     modes = [("combinatorial", False), ("by_position", False), ("by_position", True), ("combinatorial", True)]
     d1 = ["lin3", "lin3_noend", "lin1", "log3", "log3_noend", "seq1", "seq2", "seq3", "list2", "list3", "fromctx2", "seq0", "lin0",
-          "seqmixed", "seqinf", "seq12", "lin3int"]
+          "seqmixed", "seqinf", "seq12", "lin3int", "lin200", "log50_noend"]
     d2 = ["seq2", "seq3", "lin3", "log3_noend", "fromctx2", "seq1", "list2"]
     e1 = [None, "t", "2.0 * t", "float(t)", "max(t, 2.0)"]
     e2 = ["t + u", "t * u", "max(t, u)", "u - t", "t"]
